@@ -36,6 +36,7 @@ type Case struct {
 	Opts    string   `json:"opts"`        // value of $-
 	Glob    bool     `json:"glob"`        // pathname expansion is on (the f option is off); the check runs in an empty directory
 	EmptyN0 bool     `json:"empty_name0"` // $0 is the empty string
+	InArith bool     `json:"in_arith"`    // the plain expansion stands inside $(( ... + 0 ))
 	Other   string   `json:"other"`       // value of the variable o used by WP{var}
 	Pid     int      `json:"-"`
 	Name0   string   `json:"name0"`
@@ -191,7 +192,22 @@ func Eval(c *Case, store map[string]string) Outcome {
 	if c.Set {
 		m.store["v"] = c.Value
 	}
-	fields := m.expandParam()
+	var fields []field
+	if c.InArith {
+		// $((  $p + 0 )): the parameter is expanded first (an unset one is an error
+		// under nounset, like anywhere else), then the text is evaluated
+		vals, set, _ := m.lookup(c.Param)
+		n := 0
+		switch {
+		case !set && c.NoUnset:
+			m.err = "unset"
+		case set && len(vals) > 0 && vals[0] != "":
+			n, _ = strconv.Atoi(vals[0])
+		}
+		fields = []field{{{Text: strconv.Itoa(n), Quoted: c.DQ}}}
+	} else {
+		fields = m.expandParam()
+	}
 	out := Outcome{Err: m.err, Store: m.store, Skip: m.skip}
 	if m.err != "" {
 		return out
@@ -265,6 +281,10 @@ func (m *model) expandParam() []field {
 	}
 	if multi {
 		switch {
+		case len(c.Args) >= 2 && c.Param == "*" && quoted && strings.HasPrefix(c.Op, ":") && strings.Join(c.Args, m.ifsFirst()) == "":
+			// "$*" is one string: it is null when that string is empty (all
+			// parameters empty and IFS empty; bash and dash agree)
+			null = true
 		case len(c.Args) >= 2:
 			m.skip = "operator applied to $@ / $* with several positional parameters (beyond the pinned rows)"
 			return nil
@@ -373,6 +393,9 @@ func (c *Case) Source() string {
 	if c.DQ {
 		b.WriteByte('"')
 	}
+	if c.InArith {
+		b.WriteString("$((")
+	}
 	switch {
 	case c.Op == "" && !c.Braces:
 		b.WriteString("$" + c.Param)
@@ -401,6 +424,9 @@ func (c *Case) Source() string {
 			}
 		}
 		b.WriteByte('}')
+	}
+	if c.InArith {
+		b.WriteString("+0))")
 	}
 	if c.DQ {
 		b.WriteByte('"')
